@@ -49,7 +49,8 @@
 (*            (exocore a7fa8b9)                                             *)
 (*   "RPNIL"  cacheParams.commit keeps the params of the index entry it     *)
 (*            keeps (proposal fix-F-C11-RPNIL.patch)                        *)
-(* The CURRENT tree is FIX = {"FROMTO", "WINDOW", "L26"} (Trace_Oracle.cfg, *)
+(* The CURRENT tree (with dd9e699 and ec9ed9e) is                 *)
+(* FIX = {"FROMTO","WINDOW","L26","L8","L25S","RPNIL"} (Trace_Oracle.cfg,   *)
 (* MC_Oracle_gen*.cfg).                                                     *)
 (***************************************************************************)
 EXTENDS Num, Sequences, FiniteSets, TLC, SequencesExt, FiniteSetsExt, Folds
